@@ -522,11 +522,22 @@ def _region_agreement(ctx, rule):
     from . import c08
     return c08.r2_region_agreement(ctx, rule)
 
+def _shared_rule(mod, name, **kw):
+    def run(ctx, rule):
+        import importlib
+        return getattr(importlib.import_module('sa.props.' + mod), name)(ctx, rule, **kw)
+    return run
+
+
 def rules(tier):
     return [('C02.R12', r12_queue_conservation), ('C02.R1', lambda c, r: r1_adoption_kernel(c, r)), ('C02.R2', r2_predecessor), ('C02.R3', r3_coparent_prob),
             ('C02.R4', r4_copy_before_mutate), ('C02.R5', r5_all_children_pushed), ('C02.R6', r6_seeding),
             ('C02.R7', c01.r3b_prob_pure), ('C02.R8', c01.r4_prob_pt_coupling), ('C02.R9', c01.r5_successor), ('C02.R10', _mask_insertion),
-            ('C02.R11', _exact_float), ('C02.R13', r13_queue_state_per_object), ('C02.R14', _saved_position_exact), ('C02.R15', _canonical_descent), ('C02.R16', _region_agreement)] + _loader_bundle() + []
+            ('C02.R11', _exact_float), ('C02.R13', r13_queue_state_per_object), ('C02.R14', _saved_position_exact), ('C02.R15', _canonical_descent), ('C02.R16', _region_agreement),
+            # C02-cb: recursion limit of the restore walk lowered - a deep sub-tree is lost on resume
+            ('C02.R17', _shared_rule('c08', 'r9_restore_depth')),
+            # C02-ca: skip_case restored from the skip_brute key
+            ('C02.R18', _shared_rule('c08', 'r11_restore_is_verbatim'))] + _loader_bundle() + []
 
 
 META = {
